@@ -16,28 +16,163 @@ pub mod refimpl;
 pub mod runner;
 pub mod tape;
 
-/// Global allocator wrapper: when armed, every new block is filled with a non-zero pattern so that a read of
-/// uninitialised library memory (the gz layer allocates through the Rust global allocator) changes the
-/// observable output deterministically instead of depending on heap history.
+/// Global allocator wrapper.
+/// (1) POISON: when non-zero, every new block is filled with that pattern so that a read of uninitialised library
+///     memory (the gz layer allocates through the Rust global allocator) changes the observable output
+///     deterministically instead of depending on heap history.
+/// (2) galloc: while *armed* (only around single calls into the gz layer, on the one worker thread) every request is
+///     counted, can be made to fail (fail the k-th / fail all after the k-th), and the live set of blocks obtained
+///     while armed is tracked in a fixed table (no allocation inside the allocator) - the C18 oracle for the gz layer.
 pub struct PoisonAlloc;
 pub static POISON: std::sync::atomic::AtomicU8 = std::sync::atomic::AtomicU8::new(0);
+
+pub mod galloc {
+    use std::sync::atomic::{AtomicBool, AtomicUsize, Ordering::Relaxed};
+    pub const SLOTS: usize = 1024;
+    pub static ARMED: AtomicBool = AtomicBool::new(false);
+    pub static REQUESTS: AtomicUsize = AtomicUsize::new(0);
+    /// usize::MAX = never fail
+    pub static FAIL_AT: AtomicUsize = AtomicUsize::new(usize::MAX);
+    pub static FAIL_AFTER: AtomicBool = AtomicBool::new(false);
+    pub static FAILED: AtomicUsize = AtomicUsize::new(0);
+    pub static PTRS: [AtomicUsize; SLOTS] = [const { AtomicUsize::new(0) }; SLOTS];
+    pub static SIZES: [AtomicUsize; SLOTS] = [const { AtomicUsize::new(0) }; SLOTS];
+    /// frees (while armed) of blocks that were not obtained while armed
+    pub static FOREIGN_FREES: AtomicUsize = AtomicUsize::new(0);
+    pub static OVERFLOW: AtomicBool = AtomicBool::new(false);
+    /// number of occupied slots (frees skip the table scan when it is 0)
+    pub static LIVE_N: AtomicUsize = AtomicUsize::new(0);
+
+    pub fn reset(fail_at: Option<usize>, fail_after: bool) {
+        ARMED.store(false, Relaxed);
+        REQUESTS.store(0, Relaxed);
+        FAILED.store(0, Relaxed);
+        FOREIGN_FREES.store(0, Relaxed);
+        OVERFLOW.store(false, Relaxed);
+        LIVE_N.store(0, Relaxed);
+        FAIL_AT.store(fail_at.unwrap_or(usize::MAX), Relaxed);
+        FAIL_AFTER.store(fail_after, Relaxed);
+        for i in 0..SLOTS {
+            PTRS[i].store(0, Relaxed);
+            SIZES[i].store(0, Relaxed);
+        }
+    }
+    #[inline]
+    pub fn arm() {
+        ARMED.store(true, Relaxed);
+    }
+    #[inline]
+    pub fn disarm() {
+        ARMED.store(false, Relaxed);
+    }
+    pub fn live() -> (usize, usize) {
+        let (mut n, mut b) = (0, 0);
+        for i in 0..SLOTS {
+            if PTRS[i].load(Relaxed) != 0 {
+                n += 1;
+                b += SIZES[i].load(Relaxed);
+            }
+        }
+        (n, b)
+    }
+    pub fn requests() -> usize {
+        REQUESTS.load(Relaxed)
+    }
+    pub fn failed() -> usize {
+        FAILED.load(Relaxed)
+    }
+    pub fn foreign_frees() -> usize {
+        FOREIGN_FREES.load(Relaxed)
+    }
+    pub fn overflow() -> bool {
+        OVERFLOW.load(Relaxed)
+    }
+    /// called by the allocator: true = make this request fail
+    pub(crate) fn on_request() -> bool {
+        let k = REQUESTS.fetch_add(1, Relaxed);
+        let at = FAIL_AT.load(Relaxed);
+        let fail = at != usize::MAX && (k == at || (FAIL_AFTER.load(Relaxed) && k > at));
+        if fail {
+            FAILED.fetch_add(1, Relaxed);
+        }
+        fail
+    }
+    pub(crate) fn on_alloc(p: usize, size: usize) {
+        for i in 0..SLOTS {
+            if PTRS[i].load(Relaxed) == 0 {
+                PTRS[i].store(p, Relaxed);
+                SIZES[i].store(size, Relaxed);
+                LIVE_N.fetch_add(1, Relaxed);
+                return;
+            }
+        }
+        OVERFLOW.store(true, Relaxed);
+    }
+    /// true if the block was in the live set
+    #[inline]
+    pub(crate) fn on_free(p: usize) -> bool {
+        if LIVE_N.load(Relaxed) == 0 {
+            return false;
+        }
+        for i in 0..SLOTS {
+            if PTRS[i].load(Relaxed) == p {
+                PTRS[i].store(0, Relaxed);
+                LIVE_N.fetch_sub(1, Relaxed);
+                return true;
+            }
+        }
+        false
+    }
+}
+
 unsafe impl std::alloc::GlobalAlloc for PoisonAlloc {
     unsafe fn alloc(&self, l: std::alloc::Layout) -> *mut u8 {
+        let armed = galloc::ARMED.load(std::sync::atomic::Ordering::Relaxed);
+        if armed && galloc::on_request() {
+            return core::ptr::null_mut();
+        }
         let p = unsafe { std::alloc::System.alloc(l) };
         let v = POISON.load(std::sync::atomic::Ordering::Relaxed);
         if v != 0 && !p.is_null() {
             unsafe { core::ptr::write_bytes(p, v, l.size()) };
         }
+        if armed && !p.is_null() {
+            galloc::on_alloc(p as usize, l.size());
+        }
         p
     }
     unsafe fn dealloc(&self, p: *mut u8, l: std::alloc::Layout) {
+        if !galloc::on_free(p as usize) && galloc::ARMED.load(std::sync::atomic::Ordering::Relaxed) {
+            galloc::FOREIGN_FREES.fetch_add(1, std::sync::atomic::Ordering::Relaxed);
+        }
         unsafe { std::alloc::System.dealloc(p, l) }
     }
     unsafe fn alloc_zeroed(&self, l: std::alloc::Layout) -> *mut u8 {
-        unsafe { std::alloc::System.alloc_zeroed(l) }
+        let armed = galloc::ARMED.load(std::sync::atomic::Ordering::Relaxed);
+        if armed && galloc::on_request() {
+            return core::ptr::null_mut();
+        }
+        let p = unsafe { std::alloc::System.alloc_zeroed(l) };
+        if armed && !p.is_null() {
+            galloc::on_alloc(p as usize, l.size());
+        }
+        p
     }
     unsafe fn realloc(&self, p: *mut u8, l: std::alloc::Layout, n: usize) -> *mut u8 {
-        unsafe { std::alloc::System.realloc(p, l, n) }
+        let armed = galloc::ARMED.load(std::sync::atomic::Ordering::Relaxed);
+        if armed && galloc::on_request() {
+            return core::ptr::null_mut();
+        }
+        let was_tracked = galloc::on_free(p as usize);
+        let q = unsafe { std::alloc::System.realloc(p, l, n) };
+        if q.is_null() {
+            if was_tracked {
+                galloc::on_alloc(p as usize, l.size());
+            }
+        } else if was_tracked || armed {
+            galloc::on_alloc(q as usize, n);
+        }
+        q
     }
 }
 
